@@ -199,6 +199,19 @@ fn check(drv: &dyn Driver, c: &Case, with_interrupts: bool) -> Verdict {
         Err(e) => return fail1(format!("c12.baseline-write-error:{name}"), format!("writing the generated document failed: {e}")),
     };
     let mut bytes = bytes;
+    // BAM: NUL padding behind the header text (legal, never written by noodles), for half of the
+    // re-cut cases; the padding is where a short read must not end the header
+    let mut padded = false;
+    if let (true, Some(seed)) = (name.starts_with("bam"), c.reframe) {
+        if seed % 2 == 0 {
+            let k = 1 + (seed as usize / 2) % 300;
+            let stream = if drv.is_bgzf() { bgzf_walk::walk(&bytes).ok().map(|m| bgzf_walk::concat(&m)) } else { Some(bytes.clone()) };
+            if let Some(p) = stream.and_then(|s| crate::oracle::framing::bam_with_padded_header(&s, k)) {
+                bytes = if drv.is_bgzf() { bgzf_walk::build_file(&p.chunks(60_000).map(|c| c.to_vec()).collect::<Vec<_>>(), 1, true) } else { p };
+                padded = true;
+            }
+        }
+    }
     if let (true, Some(seed)) = (drv.is_bgzf(), c.reframe) {
         if let Some(b) = bgzf_walk::reframed(&bytes, seed) {
             bytes = b;
@@ -234,6 +247,7 @@ fn check(drv: &dyn Driver, c: &Case, with_interrupts: bool) -> Verdict {
         .label_if(n_records == 0, "no-records")
         .label_if(with_empty, "empty-member-mid-file")
         .label_if(c.reframe.is_some() && drv.is_bgzf(), "block-boundaries-anywhere")
+        .label_if(padded, "bam-header-nul-padded")
         .label_if(raw_short > 0, "raw-text-input")
         .label_if(raw.as_ref().map(|r| r.windows(2).any(|w| w == b"\r\n")).unwrap_or(false), "raw-text-crlf")
         .label_if(raw.as_ref().map(|r| !r.is_ascii()).unwrap_or(false), "raw-text-non-ascii")
